@@ -26,6 +26,8 @@ OBLIGATION_MESSAGES = {
     "could not prove termination": "decreases",
     "unable to prove assertion safety condition": "assert",
     "loop invariant not satisfied": "inv_step",
+    "unable to prove post-condition of closure": "post",
+    "unable to prove pre-condition of closure": "pre",
     "recommendation not met": None,  # not an obligation
 }
 
